@@ -82,7 +82,8 @@ impl Variable {
             Type::Int => Some(0.into()),
             Type::Float => Some(0.0.into()),
             Type::String => Some("".into()),
-            Type::Function(arc) => Some(Function::of_type(arc).into()),
+            // no function of that type exists when its result type has no value
+            Type::Function(arc) => Some(Function::of_type(arc)?.into()),
             Type::Array(arc) => Some(
                 Array {
                     element_type: arc.as_ref().clone(),
